@@ -98,6 +98,23 @@ func c05Check(evs []c05Ev, overlap int32, report func(sig, what string)) (nItems
 			firstCloseRet = c.ret
 		}
 	}
+	// closerRet: the call that really closed the queue is the first to take the lock, so it was called before any close
+	// returned; it is among the closes called before the first return. When all of those have returned, the latest of their
+	// returns is a time at which the closing call has certainly returned (0 = cannot be determined).
+	var closerRet int64
+	for _, c := range closes {
+		if firstCloseRet == 0 || c.call > firstCloseRet {
+			continue
+		}
+		if c.ret == 0 {
+			closerRet = 0
+
+			break
+		}
+		if c.ret > closerRet {
+			closerRet = c.ret
+		}
+	}
 	ids := make([]int, 0, len(items))
 	for id := range items {
 		ids = append(ids, id)
@@ -114,6 +131,11 @@ func c05Check(evs []c05Ev, overlap int32, report func(sig, what string)) (nItems
 		}
 		if firstCloseRet != 0 && it.enqCall > firstCloseRet && it.starts > 0 {
 			report("item-ran-after-close", fmt.Sprintf("item %d was enqueued (t=%d) after GracefulClose returned (t=%d) and still ran", id, it.enqCall, firstCloseRet))
+		} else if closerRet != 0 && it.starts > 0 && it.start > closerRet {
+			// an Enqueue overlapping the close either takes effect before it (then the close waits for the item) or after it
+			// (then the item is dropped): an item that *starts* after the closing call returned fits neither order
+			report("item-started-after-close-returned", fmt.Sprintf("item %d (Enqueue called t=%d, returned t=%d) started at t=%d, after the closing GracefulClose had returned (t=%d)",
+				id, it.enqCall, it.enqRet, it.start, closerRet))
 		}
 	}
 	// FIFO: Enqueue(a) returned before Enqueue(b) was called => a starts before b
@@ -365,6 +387,55 @@ func TestVerifC05(t *testing.T) { //nolint:gocognit,cyclop,maintidx
 			sched.Release("ops.start.exit")
 			<-doneRet
 			e.close(1, 0)
+
+			return true
+		}},
+		{"enqueue-parked-across-close", func(e *c05Env) bool {
+			// an enqueuer parked at the entry of Enqueue while a GracefulClose of the idle queue runs to completion: whatever
+			// Enqueue decided before the point, its item must not start after the close returned
+			sched.Block("ops.enqueue", 1)
+			enq := make(chan struct{})
+			go func() { e.enqueue(0, 0, nil, 0); close(enq) }()
+			if !sched.WaitReached("ops.enqueue", wd) {
+				return false
+			}
+			e.close(1, 1)
+			sched.Release("ops.enqueue")
+			select {
+			case <-enq:
+			case <-time.After(wd):
+				return false
+			}
+			e.done(1, 1)
+
+			return true
+		}},
+		{"enqueue-parked-across-close-after-work", func(e *c05Env) bool {
+			// same, but the queue has worked before (worker exited) and two enqueuers are parked
+			e.enqueue(0, 1, nil, 0)
+			e.done(1, 0)
+			if !e.quiesce() {
+				return false
+			}
+			sched.Block("ops.enqueue", 2)
+			enq := make(chan struct{}, 2)
+			for g := 1; g <= 2; g++ {
+				go func(g int) { e.enqueue(g, 0, nil, 0); enq <- struct{}{} }(g)
+			}
+			if !sched.WaitReached("ops.enqueue", wd) {
+				return false
+			}
+			time.Sleep(2 * time.Millisecond) // let the second enqueuer park as well (either way is a legal schedule)
+			e.close(1, 3)
+			sched.Release("ops.enqueue")
+			for k := 0; k < 2; k++ {
+				select {
+				case <-enq:
+				case <-time.After(wd):
+					return false
+				}
+			}
+			e.done(2, 3)
 
 			return true
 		}},
